@@ -83,6 +83,10 @@ CLAIMS = {
          "Structural necessary conditions: tuner and engine run instances of one generic Eval whose only type-dependent code is two type tests whose branches agree (tapering same expression tree; sigmoid table equals round of the float closed form on all 100 entries with clamping within rounding); ToVector/SetVector/TunedParams/convert traverse the same fields in the same order, one element per leaf, counter incremented once after the yield; all target names resolve to coefficient fields of the right type; the finite-difference loop indexes gradients by the iteration key and restores the perturbed coefficient on every path; the tuner negates for Black only. The 2.25 cp numeric envelope over positions is not decided.",
          "Trusts go/ssa; reflection is analysed structurally, never evaluated; tuner client is analysed with the packages that type-check offline.",
          "DESIGN.md §3 C19"),
+ "C11": ("forward must-dataflow of cursor-bound facts over the SSA CFG of the FEN parser closure (every index, shift, dereference and extern call enumerated and discharged), object invariants by effect analysis, dominance of the install gate, concrete-token walk of parser and printer for alphabet agreement",
+         "Crash-freedom of ParseFEN is decided completely at the API (every potentially panicking instruction in its closure is discharged by a guard fact, a range fact or an invariant); the new board is installed only after parse success and the piece-count gate; parser and printer agree on piece letters, castling letters and order, side letters, field order, en-passant square text and counter ranges; tools reach FEN parsing only through ParseFEN with their errors checked. Value round-trip of placement runs and counters for all positions is not decided.",
+         "Trusts go/ssa; nil *Board argument excluded; errors.New/fmt.Errorf allow-listed as non-panicking.",
+         "DESIGN.md §3 C11"),
 }
 
 NOT_YET = "no static rule of DESIGN.md §3 for this property is built in this revision yet; not claimed"
